@@ -3,6 +3,7 @@ import Heph.Generated.PickleClasses
 import Heph.Proofs.PickleStable
 import Heph.Proofs.PickleLoad
 import Heph.Proofs.PickleFuel
+import Heph.Proofs.Processor
 /-!
 # C13 — saved programs replay faithfully (partial: the abstract pickle machine)
 
@@ -317,5 +318,73 @@ example : (dump hA (.ref 0)).isSome = true ∧
     ((dump hA (.ref 0)).bind load).map (fun p => p.1.size) = some hA.size := by decide
 /-- cells that stand for no Python object are refused by `dump` (a class whose names are not strings) -/
 example : dump #[.global .none .none] (.ref 0) = none := by decide
+
+/-! ## `--replay`: every iteration starts from the stored program
+
+`ProgramProcessor.get_program` (replay branch) is `load_program(self.args.replay)`: the file is unpickled
+again on EVERY call, so each iteration gets a new object whose content is the stored one — although the
+iterations of one process share the heap and the transformers (TypeErasure, TypeOverwriting) mutate the
+object they are given in place.  `Heph/Model/Processor.lean` makes the aliasing explicit (programs live in
+heap cells, variables hold addresses, a transformer writes to the address it received); the statements are
+about `freshLoad`, the model of the code, and fail for `cachedLoad` (the loaded object kept in a table and
+handed out again): `replay_cached_counterexample`. -/
+
+/-- one iteration in replay mode: unless the construction of the processor raised, `get_program` returned an
+    object that did not exist before the iteration (its address is the old heap size: no variable of an earlier
+    iteration can refer to it) and whose content is the stored program — for every behaviour of the
+    transformers, every `transform_program` (`step`), every state `w` earlier iterations left behind -/
+theorem replay_iteration_start {P : Type} [Inhabited P] (step : Processor.Step P) (beh : Processor.Beh P)
+    (args : Processor.Args) (stored : P) (gen : Nat → P) (schedule : Except String (List String))
+    (w : Processor.World P) (pid : Nat) (hr : args.replay = true) :
+    ((∃ e, schedule = .error e) ∧
+      (Processor.genProgram step beh args Processor.freshLoad stored gen schedule w pid).2.start = none) ∨
+    ((Processor.genProgram step beh args Processor.freshLoad stored gen schedule w pid).2.start = some stored ∧
+     (Processor.genProgram step beh args Processor.freshLoad stored gen schedule w pid).2.startAddr
+        = some w.heap.cells.length) := by
+  cases schedule with
+  | error e => exact Or.inl ⟨⟨e, rfl⟩, rfl⟩
+  | ok sched =>
+    right
+    have hread : (w.heap.alloc stored).1.read (w.heap.alloc stored).2 = stored := Processor.read_alloc _ _
+    simp only [Processor.genProgram, Processor.getProgram, hr, if_true, Processor.freshLoad]
+    split <;> (try split) <;> (try split) <;> exact ⟨by simpa using hread, rfl⟩
+
+/-- any number of iterations of one process in replay mode: every iteration that got as far as `get_program`
+    started from a program equal to the stored one, whatever the earlier iterations did to the objects they
+    were given -/
+theorem replay_start_faithful {P : Type} [Inhabited P] (step : Processor.Step P) (beh : Processor.Beh P)
+    (args : Processor.Args) (stored : P) (gen : Nat → P) (schedules : Nat → Except String (List String))
+    (hr : args.replay = true) (n : Nat) :
+    ∀ (pid : Nat) (w : Processor.World P) (r : Processor.IterRes P),
+      r ∈ (Processor.runIterations step beh args Processor.freshLoad stored gen schedules n pid w).2 →
+      r.start = none ∨ r.start = some stored := by
+  induction n with
+  | zero => intro pid w r h; simp [Processor.runIterations] at h
+  | succ k ih =>
+    intro pid w r h
+    simp only [Processor.runIterations, List.mem_cons] at h
+    rcases h with h | h
+    · subst h
+      rcases replay_iteration_start step beh args stored gen (schedules pid) w pid hr with h1 | h1
+      · exact Or.inl h1.2
+      · exact Or.inr h1.1
+    · exact ih _ _ r h
+
+/-- the counter-model: with the loaded object kept and handed out again (`cachedLoad`), a transformer that
+    mutates its program in place makes the second iteration start from a program that is NOT the stored one -/
+theorem replay_cached_counterexample :
+    ((Processor.runIterations Processor.transformProgram
+        (fun call _ _ _ p => .ran (p ++ [call]) none true "") { replay := true, transformations := some 1 }
+        Processor.cachedLoad [] (fun _ => []) (fun _ => .ok ["TypeErasure"]) 2 1 {}).2.map (·.start))
+      = [some [], some [0, 1]] := by decide
+
+/-- the same run with the loader of the code: both iterations start from the stored program (the hypotheses of
+    `replay_start_faithful` are met by a non-trivial run: the erasure and the fault injection mutate in place) -/
+example :
+    ((Processor.runIterations Processor.transformProgram
+        (fun call _ _ _ p => .ran (p ++ [call]) none true "") { replay := true, transformations := some 1 }
+        Processor.freshLoad [] (fun _ => []) (fun _ => .ok ["TypeErasure"]) 2 1 {}).2.map
+          (fun r => (r.start, r.startAddr, r.steps, r.cur)))
+      = [(some [], some 0, 1, 2), (some [], some 1, 1, 2)] := by decide
 
 end Heph.Props.C13
